@@ -875,13 +875,12 @@ func (s *SpecValidator) expandedAnalyzer() *analysis.Spec {
 
 // canValidateAgainst tells if a schema validator may be built for this schema.
 //
-// When some references of the document do not resolve (this has been reported by validateReferencesValid
-// and only matters when continuing on errors), building a validator on such a reference panics: the
-// default and example values of these schemas cannot be checked.
+// Building a validator expands the references of the schema against the specification, and panics when
+// one of them cannot be resolved that way: a dangling reference (reported by validateReferencesValid, it only
+// gets here when continuing on errors), but also a reference into another file or below an "id", which the
+// expansion of the whole document resolves and this one does not. The default and example values of these
+// schemas cannot be checked: the very expansion the validator would perform is tried on a copy first.
 func (s *SpecValidator) canValidateAgainst(schema *spec.Schema) bool {
-	if s.expanded != nil {
-		return true // all references resolve
-	}
 	probe, err := deepCloneSchema(*schema)
 	if err != nil {
 		return false
